@@ -354,6 +354,10 @@ pub enum KeyCommand {
         key: Vec<u8>,
         milliseconds: u64,
     },
+    PExpireAt {
+        key: Vec<u8>,
+        unix_millis: i64,
+    },
     Ttl {
         key: Vec<u8>,
     },
@@ -1225,6 +1229,11 @@ impl UnifiedCommandExecutor {
                 Ok(RespFrame::Integer(if result { 1 } else { 0 }))
             }
             
+            KeyCommand::PExpireAt { key, unix_millis } => {
+                let result = self.storage.pexpire_at(db, &key, unix_millis)?;
+                Ok(RespFrame::Integer(if result { 1 } else { 0 }))
+            }
+            
             KeyCommand::Ttl { key } => {
                 let ttl = self.storage.ttl(db, &key)?;
                 match ttl {
@@ -1890,6 +1899,7 @@ impl CommandParser {
             "EXISTS" => Command::Key(Self::parse_exists(frames)?),
             "EXPIRE" => Command::Key(Self::parse_expire(frames)?),
             "PEXPIRE" => Command::Key(Self::parse_pexpire(frames)?),
+            "PEXPIREAT" => Command::Key(Self::parse_pexpireat(frames)?),
             "TTL" => Command::Key(Self::parse_ttl(frames)?),
             "PTTL" => Command::Key(Self::parse_pttl(frames)?),
             "PERSIST" => Command::Key(Self::parse_persist(frames)?),
@@ -2756,6 +2766,16 @@ impl CommandParser {
         let milliseconds = Self::extract_string(&frames[2])?.parse::<u64>()
             .map_err(|_| FerrousError::Command(CommandError::InvalidIntegerValue))?;
         Ok(KeyCommand::PExpire { key, milliseconds })
+    }
+
+    fn parse_pexpireat(frames: &[RespFrame]) -> Result<KeyCommand> {
+        if frames.len() != 3 {
+            return Err(FerrousError::Command(CommandError::WrongNumberOfArguments("PEXPIREAT".into())));
+        }
+        let key = Self::extract_bytes(&frames[1])?;
+        let unix_millis = Self::extract_string(&frames[2])?.parse::<i64>()
+            .map_err(|_| FerrousError::Command(CommandError::InvalidIntegerValue))?;
+        Ok(KeyCommand::PExpireAt { key, unix_millis })
     }
 
     fn parse_ttl(frames: &[RespFrame]) -> Result<KeyCommand> {
